@@ -331,7 +331,7 @@ EXTRA5 = {
 }
 EXTRA6 = {
     'C03': "Round 10: resources that arrive with a dialect of their own (header-less, escape character, other delimiter).",
-    'C07': "Round 10: Ejson.tla zones without a name (AwareBy: the pinned decoder told zone-aware values by the written NAME - refuted, fix dada92e); resumed rows carry the same fields as the first run's rows.",
+    'C07': "FlowReuse.tla: run / delete histories on ONE Flow object (fix b335952). Round 10: Ejson.tla zones without a name (AwareBy: the pinned decoder told zone-aware values by the written NAME - refuted, fix dada92e); resumed rows carry the same fields as the first run's rows.",
     'C09': "Round 10: xlsx dumps (size / hash / rows / totals of files the writer saves by name; fix e02c01f).",
     'C20': "Round 10: a bystander table of the same database whose name begins like the dumped table's is untouched by every dump.",
     'C15': "Round 10: find_replace over several resources / one specification handed to two steps.",
